@@ -45,7 +45,7 @@ impl Property for C02 {
         "C02"
     }
     fn rule(&self) -> &'static str {
-        "profile `protocol`: expansion-style programs rich in C and X rows, both driver types (write_input overridden / defaulted), row values that in half of the cases need not fit the width of the signal they drive, >= 1 output-capable signal (one test in six: none at all - a pure stimulus whose rows report no outputs, where the mid-clock rows are known from their position in the expansion only), rows that repeat the row before them entry by entry (with or without one input turned into C; a quarter of the programs carry no tags, so that such rows are identical vectors), and a caller schedule (prefix length at which the iterator is dropped, 0-3 extra next() calls after None). Oracle: self-consistency between the recording driver's log and the items, measured as the log delta of every API call (constructor = one output-reading call with every input-capable signal at its default; Ok(row) = exactly one call, vector identical to row.inputs entry by entry, output-reading method iff row.outputs non-empty; None = zero calls, also afterwards; drop = zero calls; laziness: log length before the k-th next() = 1 + rows already returned), plus a closed formula for the number of mid-clock rows of loop-free programs. Non-trivial: trace has a mid-clock row or >= 3 rows, and the schedule has a post-None call or an early drop; distinct by source + signals + driver + schedule."
+        "profile `protocol`: expansion-style programs rich in C and X rows, both driver types (write_input overridden / defaulted), defaults of any size (also wider than their signal), now and then an input `<b>_out` next to a bidirectional `<b>`, row values that in half of the cases need not fit the width of the signal they drive, >= 1 output-capable signal (one test in six: none at all - a pure stimulus whose rows report no outputs, where the mid-clock rows are known from their position in the expansion only), rows that repeat the row before them entry by entry (with or without one input turned into C; a quarter of the programs carry no tags, so that such rows are identical vectors), and a caller schedule (prefix length at which the iterator is dropped, 0-3 extra next() calls after None). Oracle: self-consistency between the recording driver's log and the items, measured as the log delta of every API call (constructor = one output-reading call with every input-capable signal at its default; Ok(row) = exactly one call, vector identical to row.inputs entry by entry, output-reading method iff row.outputs non-empty; None = zero calls, also afterwards; drop = zero calls; laziness: log length before the k-th next() = 1 + rows already returned), plus a closed formula for the number of mid-clock rows of loop-free programs. Non-trivial: trace has a mid-clock row or >= 3 rows, and the schedule has a post-None call or an early drop; distinct by source + signals + driver + schedule."
     }
     fn cases(&self, tier: Tier) -> u64 {
         match tier {
@@ -81,6 +81,11 @@ impl Property for C02 {
         // rows that repeat the row before them (with or without a clock added); in a quarter of
         // the cases no tags are planted, so that such rows really are identical vectors
         cfg.dup_rows = true;
+        // an input called `<b>_out` next to a bidirectional `<b>` now and then (one column then
+        // feeds an input and is an expected value at once); defaults of any size, also ones that
+        // do not fit the width of their signal (they are sent as they are)
+        cfg.shared_cols = true;
+        cfg.wild_defaults = true;
         let untagged = !pure_stimulus && dch.chance(1, 4);
         out.class_if(untagged, "untagged-program");
         let mut built = gen_case(&mut Ch::new(&s[0]), &cfg);
